@@ -33,6 +33,12 @@ def datasets(rng, n_random):
     out.append(('two-rows', np.array([[.2, .3], [.6, .8]])))
     out.append(('two-rows-disc', np.array([[.2, .8], [.6, .3]])))
     out.append(('edge-values', np.array([[0., 0.], [1., 1.], [.5, .25], [.25, .5]])))
+    # legal values within EPSILON (1.19e-7) of 0 and 1, all distinct: no tie may be created before Kendall's tau is taken
+    out.append(('distinct-near-zero', np.column_stack([np.array([0.0, 1e-9, 3e-9, 5e-8, 9e-8, 0.2, 0.5, 0.9]),
+                                                      np.array([2e-9, 0.0, 7e-8, 1e-9, 0.3, 4e-8, 0.8, 0.6])])))
+    out.append(('distinct-near-one', np.column_stack([1.0 - np.array([0.0, 1e-12, 3e-10, 5e-8, 9e-8, 0.2, 0.5, 0.9]),
+                                                     1.0 - np.array([2e-10, 0.0, 7e-8, 1e-12, 0.3, 4e-8, 0.8, 0.6])])))
+    out.append(('denormal-scale', np.column_stack([np.arange(1, 9) * 5e-324, np.array([3, 1, 2, 5, 4, 7, 8, 6]) * 1e-310])))
     # nearly (anti-)monotone tables: |tau| in (0.97, 0.995), Frank theta in the hundreds but well inside the solver's box
     for n in (16, 26):
         u = (np.arange(n) + 0.5) / n
@@ -171,6 +177,50 @@ def calibration_why(fam, X):
     return None
 
 
+def consistent_pair(c):
+    """a copula object that passes its own check_fit must hold a (theta, tau) pair related by the family's calibration; after a refused
+    re-fit this is where a half-updated object (old theta, new tau) shows.  None or a description."""
+    try:
+        c.check_fit()
+    except Exception:
+        return None                       # the object declares itself unusable: nothing is claimed
+    th, tau = c.theta, c.tau
+    if th is None or tau is None:
+        return None
+    th, tau = float(th), float(tau)
+    name = type(c).__name__
+    if not np.isfinite(th) or not np.isfinite(tau):
+        return None                       # F14b (theta = inf) has its own oracle
+    if name == 'Clayton':
+        want = th / (th + 2.0)
+    elif name == 'Gumbel':
+        want = 1.0 - 1.0 / th
+    else:
+        if abs(th) > 600 or abs(tau) < 0.01:
+            return None                   # F14c/d, F33
+        want = debye_tau(th)
+    if abs(want - tau) > 1e-6 + (1.05 * 4 * 1.1920929e-07 / th ** 2 if name == 'Frank' else 0.0):
+        return (f'{name} passes check_fit with theta = {th!r} and tau = {tau!r}, but the Kendall tau of that theta is {want!r}: the object pairs '
+                f'the parameter of one fit with the tau of another')
+    return None
+
+
+def consistency_replay(seed, n_random, fam, name):
+    """replay entry point: ONE instance per family fitted on the run's tables in order (failures swallowed) up to `name`"""
+    from copulas.bivariate import Bivariate
+    ds = datasets(np.random.default_rng(seed + 10), n_random)
+    c = Bivariate(copula_type=fam)
+    for nm, X in ds:
+        try:
+            with np.errstate(all='ignore'):
+                c.fit(X.copy())
+        except Exception:
+            pass
+        if nm == name:
+            return consistent_pair(c)
+    return 'table not found'
+
+
 def calibration_replay(seed, n_random, fam, name):
     """replay entry point: regenerate the run's tables and fit them in the run's order up to (name, fam); returns that table's verdict"""
     ds = datasets(np.random.default_rng(seed + 10), n_random)
@@ -255,6 +305,20 @@ def run(ctx):
             same = (res_h[0] == res[0]) and (res_h[0] == 'err' and res_h[1] == res[1] or
                                              res_h[0] == 'ok' and res_h[1] == res[1] and (res_h[2] == res[2] or abs(res_h[2] - res[2]) <= 1e-9 * (1 + abs(res[2]))))
             ctx.obligation(f'corr:refit-equals-fresh:{fam}:{name}', same, 'correspondence', f'fresh {res} vs re-fitted instance {res_h}')
+            # whatever the history (this fit may have been REFUSED): a model that passes check_fit must pair theta with its own tau
+            why_c = consistent_pair(PERSISTENT[fam])
+            ctx.obligation(f'oracle:theta-tau-consistent-after:{fam}:{name}', why_c is None, 'correspondence', why_c or '')
+            if why_c:
+                # Gumbel.compute_theta raises for tau = 1 BEFORE theta is assigned, while fit has already stored self.tau = 1: the earlier
+                # theta stays next to the new tau (finding F22 of C19, seen from C10); any other refusal assigns the rejected theta first
+                tau1 = fam == 'gumbel' and res_h[0] == 'err' and "Tau value can't be 1" in str(res_h[2])
+                ckey = 'F22:gumbel-tau1-refused-keeps-old-theta' if tau1 else f'search:theta-tau-inconsistent-after-fit-history:{fam}'
+                ctx.violation(ckey, f'{fam}: after the fits up to dataset {name} (last outcome {res_h[:2]}): {why_c}',
+                              {'family': fam, 'dataset': name, 'last_outcome': list(res_h),
+                               'explains': f'oracle:theta-tau-consistent-after:{fam}:{name}',
+                               'repro': ('from vf.props import C10\n'
+                                         f'why = C10.consistency_replay({int(ctx.seed)}, {n_random}, {fam!r}, {name!r})   # the run\'s tables, in order, on ONE instance\n'
+                                         'print(why)\nassert why is None\n')})
             if not same:
                 ctx.violation(f'corr:refit-differs-from-fresh:{fam}', f'{fam}: fitting dataset {name} on an instance fitted before gives {res_h}, a fresh instance gives {res}',
                               {'family': fam, 'dataset': name, 'X': X.tolist(), 'fresh': res, 'refit': res_h,
